@@ -133,17 +133,15 @@ Proof.
   split; [tw_crush|split; [cred_crush|deb_crush]].
 Qed.
 
-(* ---- WITHDRAW_REWARD ---- no sign guard in the code: creation-free and authorised for every amount (a negative amount moves the
-   SIGNER's money into the reward pool); credits >= 0 only under 0 <= wrap64 v *)
+(* ---- WITHDRAW_REWARD ---- guards: v >= 0 (45cfd0d) and v fits int64 (ed95e98): the narrowed amount is v itself *)
 Lemma withdraw_reward_facts known cur signer rpool v ops : effect_withdraw_reward known cur signer rpool v = Some ops ->
-  no_creation (ops ++ fee_ops payer fp fee) /\ takes_only_from (ops ++ fee_ops payer fp fee) [signer; rpool; payer] /\
-  (0 <= wrap64 v -> credits_ok (ops ++ fee_ops payer fp fee)).
+  no_creation (ops ++ fee_ops payer fp fee) /\ credits_ok (ops ++ fee_ops payer fp fee) /\
+  takes_only_from (ops ++ fee_ops payer fp fee) [rpool; payer].
 Proof.
-  unfold effect_withdraw_reward. intros H. open_effect H. split_guards. pose proof E18_pos.
-  split; [|split].
-  - generalize (wrap64 v * E18). intros x. tw_crush.
-  - generalize (wrap64 v * E18). intros x. deb_crush.
-  - intros P. assert (0 <= wrap64 v * E18) by nia. generalize dependent (wrap64 v * E18). intros x Hx. cred_crush.
+  unfold effect_withdraw_reward. intros H. open_effect H. split_guards.
+  rewrite (wrap64_fits v) by assumption. pose proof E18_pos.
+  assert (0 <= v * E18) by nia. generalize dependent (v * E18). intros x Hx.
+  split; [tw_crush|split; [cred_crush|deb_crush]].
 Qed.
 
 (* ---- PROPOSAL_CREATE ---- guards: OLT (Validate), initial-funding option <= v (handler); option value >= 0 is the env hypothesis *)
@@ -432,8 +430,8 @@ Proof. intros known cur from benef v payer fp fee ops Hfee  H. destruct (domain_
 
 Lemma withdraw_reward_no_creation : forall known cur signer rpool v payer fp fee ops, 0 <= fee ->
   effect_withdraw_reward known cur signer rpool v = Some ops ->
-  no_creation (ops ++ fee_ops payer fp fee) /\ (0 <= wrap64 v -> credits_ok (ops ++ fee_ops payer fp fee)).
-Proof. intros known cur signer rpool v payer fp fee ops Hfee H. destruct (withdraw_reward_facts payer fp fee Hfee _ _ _ _ _ _ H) as [A [_ C]]. auto. Qed.
+  no_creation (ops ++ fee_ops payer fp fee) /\ credits_ok (ops ++ fee_ops payer fp fee).
+Proof. intros known cur signer rpool v payer fp fee ops Hfee H. destruct (withdraw_reward_facts payer fp fee Hfee _ _ _ _ _ _ H) as [A [B _]]. auto. Qed.
 Lemma withdraw_reward_authority : forall known cur signer rpool v payer fp fee ops, 0 <= fee ->
-  effect_withdraw_reward known cur signer rpool v = Some ops -> takes_only_from (ops ++ fee_ops payer fp fee) [signer; rpool; payer].
-Proof. intros known cur signer rpool v payer fp fee ops Hfee H. destruct (withdraw_reward_facts payer fp fee Hfee _ _ _ _ _ _ H) as [_ [B _]]. exact B. Qed.
+  effect_withdraw_reward known cur signer rpool v = Some ops -> takes_only_from (ops ++ fee_ops payer fp fee) [rpool; payer].
+Proof. intros known cur signer rpool v payer fp fee ops Hfee H. destruct (withdraw_reward_facts payer fp fee Hfee _ _ _ _ _ _ H) as [_ [_ C]]. exact C. Qed.
